@@ -177,9 +177,6 @@ func init() {
 	addMisuse("dup", "Unsafe.Exchange(dup add)", func(d *Drv, op *Op, h, _ ecs.Entity) {
 		d.U.Exchange(h, d.ids(op.Add), nil)
 	})
-	addMisuse("dup", "Unsafe.Add(twice in list)", func(d *Drv, op *Op, h, _ ecs.Entity) {
-		d.U.Add(h, d.ID[op.Rem[0]], d.ID[op.Rem[0]])
-	})
 	addMisuse("missing", "Unsafe.Remove(missing)", func(d *Drv, op *Op, h, _ ecs.Entity) { d.U.Remove(h, d.ids(op.Rem)...) })
 	addMisuse("missing", "Map.Remove(missing)", func(d *Drv, op *Op, h, _ ecs.Entity) { d.Maps[op.Rem[0]].Remove(h) })
 	addMisuse("missing", "Unsafe.Exchange(missing remove)", func(d *Drv, op *Op, h, _ ecs.Entity) {
@@ -193,7 +190,6 @@ func init() {
 	addMisuse("empty", "Unsafe.Add()", func(d *Drv, op *Op, h, _ ecs.Entity) { d.U.Add(h) })
 	addMisuse("empty", "Unsafe.Remove()", func(d *Drv, op *Op, h, _ ecs.Entity) { d.U.Remove(h) })
 	addMisuse("empty", "Unsafe.Exchange(nil,nil)", func(d *Drv, op *Op, h, _ ecs.Entity) { d.U.Exchange(h, nil, nil) })
-	addMisuse("empty", "Unsafe.SetRelations()", func(d *Drv, op *Op, h, _ ecs.Entity) { d.U.SetRelations(h) })
 	addMisuse("empty", "Exchange1.Remove()", func(d *Drv, op *Op, h, _ ecs.Entity) {
 		typed.Tuples[plainTuple(0)].NewExch(d.W, false).Remove(h)
 	})
